@@ -24,6 +24,9 @@ type Suite struct {
 	// Leaf, if set, is evaluated on every state without successors or every
 	// state (All) - e.g. the liveness continuation.
 	Properties []string // property ids whose violations this suite reports
+	// Classify, if set, may refine a violation's signature with root-cause
+	// discriminators read from the violating state (DESIGN 2.7).
+	Classify func(c *sim.Cluster, v *common.Violation)
 	// Boot, if set, replaces the default cluster construction (HANDLER suites).
 	Boot func(b sim.Budget) *sim.Cluster
 }
@@ -91,11 +94,12 @@ type Exec struct {
 	C    *sim.Cluster
 	Mons []monitor.Monitor
 	All  []*common.Violation
+	S    *Suite
 	mem  bytes.Buffer
 }
 
 func NewExec(s *Suite) (*Exec, *common.Violation) {
-	x := &Exec{}
+	x := &Exec{S: s}
 	if s.Boot != nil {
 		x.C = s.Boot(s.Budget)
 	} else {
@@ -137,6 +141,11 @@ func (x *Exec) check() *common.Violation {
 		}
 	}
 	if len(x.All) > 0 {
+		if x.S != nil && x.S.Classify != nil {
+			for _, v := range x.All {
+				x.S.Classify(x.C, v)
+			}
+		}
 		return x.All[0]
 	}
 	return nil
